@@ -48,6 +48,7 @@ type Event struct {
 
 	// observations
 	Motion    bool
+	Heard     bool // the processor announced motion to its listener (Motion is the detector's verdict where a world computes it)
 	Started   bool
 	Ended     bool
 	ErrKind   byte // 0 none, 'b' *lepton3.BadFrameErr, 'e' other error
